@@ -43,6 +43,7 @@ type Obligation struct {
 	Paths    map[string]int            `json:"paths"`
 	TimeS    map[string]int            `json:"time_s"`
 	Subst    map[string]string         `json:"subst"`
+	Merge    []string                  `json:"merge"` // pure loop-free scalar callees evaluated by path merging
 	LoopBounds map[string]int          `json:"loop_bounds"`
 	Tiers    []string                  `json:"tiers"`
 	What     string                    `json:"what"`
@@ -296,6 +297,12 @@ func runObligation(cfg *Config, l *loaded, o Obligation, conc *interp.Concrete, 
 		qto = 30000
 	}
 	eng.NewSolver = func() (*solver.Solver, error) { return solver.New("z3", []string{"-in"}, qto) }
+	if len(o.Merge) > 0 {
+		eng.Merge = map[string]bool{}
+		for _, m := range o.Merge {
+			eng.Merge[m] = true
+		}
+	}
 	if len(o.Subst) > 0 {
 		eng.Subst = map[string]*ssa.Function{}
 		for target, repl := range o.Subst {
@@ -1006,6 +1013,7 @@ func (ev *evidence) write(cfg *Config, spec *Spec, results []*oblResult, wall fl
 			"replay": map[bool]string{true: "native (go test -overlay against the real build)", false: "engine-trace (concrete re-execution of the SSA under the model)"}[r.Obl.Native],
 			"unwind_is_violation": e.UnwindIsViolation, "deadlock_is_violation": e.DeadlockIsViolation,
 			"exhausted": e.Exhausted,
+			"path_merged_callees": r.Obl.Merge, "path_merged_calls": e.MergedCalls,
 		})
 	}
 	if len(samples) == 0 {
